@@ -12,10 +12,11 @@
        different goroutines under a common mutex are ordered by happens-before;
        accesses of one goroutine are ordered by program order.
 
-   Partial: J3-J5 are happens-before edges taken from the documented contract
-   (routes and Router before Run; Run called once), from Go's rule for `go`
-   statements and from the lock around the conns map; they are checked on the
-   table (line order, locks at call sites) but have no trace-level theorem.
+   Partial: the trace-level theorems cover J1 (common mutex), J2 (same goroutine),
+   J4 (go statement) and J5 (publication under a mutex) as rules about traces; that
+   the particular sites the table justifies by J4/J5 are placed as those rules need
+   is checked on the table (line order, locks at every call site).  J3 (routes and
+   Router before Run; Run called once) is the documented contract, a premise.
    State the detector cannot be replaced for - the internals of bufio, tls and
    net, and the wait groups' own Add/Wait rule (C12_wait_group covers the
    accounting) - is the correspondence side's part (worker built with -race). *)
@@ -53,6 +54,32 @@ Theorem C15_same_goroutine_orders : forall tr i j ei ej,
   i < j -> nth_error tr i = Some ei -> nth_error tr j = Some ej -> thr ei = thr ej -> hb tr i j.
 Proof. exact same_goroutine_ordered. Qed.
 Print Assumptions C15_same_goroutine_orders.
+
+(* J5: written before being published under a mutex, read under that mutex later *)
+Theorem C15_publication_orders : forall tr iw ir iu il ew er eu el m,
+  nth_error tr iw = Some ew -> nth_error tr iu = Some eu -> nth_error tr il = Some el -> nth_error tr ir = Some er ->
+  iw < iu -> iu < il -> il < ir ->
+  thr ew = thr eu -> what eu = Rel m -> thr el = thr er -> what el = Acq m ->
+  hb tr iw ir.
+Proof. exact publication_ordered. Qed.
+Print Assumptions C15_publication_orders.
+
+(* J4: what a goroutine did before a go statement is ordered before everything the
+   started goroutine does, and before everything a goroutine that one starts does *)
+Theorem C15_spawn_orders : forall tr ip ifork jc ep ef ec c,
+  nth_error tr ip = Some ep -> nth_error tr ifork = Some ef -> nth_error tr jc = Some ec ->
+  ip < ifork -> fthr ep = fthr ef -> fwhat ef = FFork c -> fthr ec = c ->
+  started_by_fork tr c ifork -> fhb tr ip jc.
+Proof. exact spawn_ordered. Qed.
+Print Assumptions C15_spawn_orders.
+
+Theorem C15_spawn_orders_twice : forall tr ip if1 if2 jc ep e1 e2 ec c1 c2,
+  nth_error tr ip = Some ep -> nth_error tr if1 = Some e1 -> nth_error tr if2 = Some e2 -> nth_error tr jc = Some ec ->
+  ip < if1 -> fthr ep = fthr e1 -> fwhat e1 = FFork c1 ->
+  fthr e2 = c1 -> fwhat e2 = FFork c2 -> fthr ec = c2 ->
+  started_by_fork tr c1 if1 -> started_by_fork tr c2 if2 -> fhb tr ip jc.
+Proof. exact spawn_ordered_twice. Qed.
+Print Assumptions C15_spawn_orders_twice.
 
 (* the wait groups: the server's counter equals the connections not yet done (plus
    the slot reserved before Accept), in every reachable state - Add never races Wait from zero *)
